@@ -42,8 +42,8 @@ class NbrTracer(Equation):
         self.k = k
         super(NbrTracer, self).__init__(dest, sources)
 
-    def loop(self, d_idx, s_idx, d_tr, s_w0):
-        d_tr[d_idx] = (d_tr[d_idx]*31 + s_idx*5 + s_w0[s_idx] +
+    def loop(self, d_idx, s_idx, d_tr, s_nw):
+        d_tr[d_idx] = (d_tr[d_idx]*31 + s_idx*5 + s_nw[s_idx] +
                        self.k*7 + 4) % 1000003
 
 
